@@ -316,13 +316,17 @@ def bracket(term, envs, prec=40):
 def within(obs, lo, hi, rtol, atol=0):
     """lo - tol <= obs <= hi + tol with tol = atol + rtol * max(|lo|, |hi|).  rtol/atol may be
     [n, d] pairs, decimal strings or numbers (tolerances are part of the case)."""
-    if obs != obs:  # nan
+    try:                       # total: anything that is not a finite real number is simply not within
+        fo = float(obs)
+    except Exception:
+        return False
+    if fo != fo or fo in (float("inf"), float("-inf")):
         return False
     r = to_fraction(rtol) if not isinstance(rtol, float) else Fraction(rtol)
     a = to_fraction(atol) if not isinstance(atol, float) else Fraction(atol)
     scale = max(abs(lo), abs(hi))
     tol = float(a) + float(r) * float(scale)
-    return float(lo) - tol <= float(obs) <= float(hi) + tol
+    return float(lo) - tol <= fo <= float(hi) + tol
 
 
 def term_str(t):
